@@ -318,4 +318,14 @@ def rule_precision(ck):
     rule_double_precision(ck, 'C07-D1.double', modules=('csep.core.poisson_evaluations', 'csep.core.binomial_evaluations', 'csep.core.forecasts'), what='the forecast total and the observed count')
 
 
-RULES = [rule_poisson, rule_nbd, rule_catalog, rule_totals, rule_precision]
+def rule_quantiles_shared(ck):
+    """the catalog N-test's tails are the empirical probabilities of C09: get_quantiles hands the plain sample (or its full ecdf) to
+    both tail functions, which evaluate (n - L)/n and R/n (shared C09-D2 rank algebra, C09-D3 pair / precomputed distribution)"""
+    from . import c09
+    ck.clause('D3 (shared C09-D2/D3: the empirical tails)')
+    c09.rule_stateless(ck)
+    c09.rule_rank(ck)
+    c09.rule_pair(ck)
+
+
+RULES = [rule_poisson, rule_nbd, rule_catalog, rule_totals, rule_precision, rule_quantiles_shared]
